@@ -190,6 +190,7 @@ def mutants(prog):
         ("in-place reciprocal on the output of exp", "deepali.spatial.linear", "IsotropicScaling.tensor", "scales = 1 / scales", "scales = scales.reciprocal_()", "E8.saved-inplace"),
         ("in-place add on tanh output", "deepali.spatial.linear", "AnisotropicScaling.scales", "params = params.sub(1).tanh().exp()", "params = params.sub(1).tanh().mul_(1).exp()", "E8.saved-inplace"),
         ("update hook bound to the instance", "deepali.spatial.base", "SpatialTransform._update_hook", "@staticmethod\ndef _update_hook(transform: Module, *args, **kwargs) -> None:", "def _update_hook(transform, *args, **kwargs) -> None:", "E8.hook-receiver"),
+        ("svf update: velocity buffer detached", "deepali.spatial.nonrigid", "StationaryVelocityFieldTransform.update", "self.register_buffer('v', v, persistent=False)", "self.register_buffer('v', v.detach(), persistent=False)", "E8.buffer-graph"),
     ]
     for name, mod, fn, old, new, expect in specs:
         if expect == "SKIP":
